@@ -241,6 +241,35 @@ theorem delayed_send_uses_wiring_at_send_time (n : Nat) (netAt : Nat → Net) (n
     exact forwardT_stable netAt net owner active sender _ _ _ _ _ hstable
   exact ⟨h1, h1.trans (delivered_once_to_far_owner n net sp hR owner active hact sender g hg hk sendTime)⟩
 
+/-- **header fields are re-stamped on every leg.** Whatever a message's header held before — a fresh
+    message, one built with explicit sender / receiver ids, or one that was received earlier and is
+    sent on — the outcome of sending it does not depend on the old header: the delivered header has
+    `sender_module_id` = the module that sent this leg, `receiver_module_id` = the module the message
+    is handed to and `last_gate` as walked on this leg. -/
+theorem header_restamped_per_leg (netAt : Nat → Net) (owner : Nat → Nat) (active : Nat → Nat → Bool)
+    (sendingModule fuel g issue sendTime : Nat) (h h' : Hdr) :
+    sendH netAt owner active sendingModule fuel g issue sendTime h =
+      sendH netAt owner active sendingModule fuel g issue sendTime h' ∧
+    sendH netAt owner active sendingModule fuel g issue sendTime h =
+      (sendIssued netAt owner active sendingModule fuel g issue sendTime).toDelivery := by
+  rw [sendH_eq, sendH_eq]; exact ⟨rfl, rfl⟩
+
+/-- … in particular, with all modules active and the wiring settled at the send time, a message with
+    arbitrary prior header contents arrives once at the owner of the far end `e` of this leg's chain
+    with header (sender = the sending module, receiver = owner of `e`, last_gate = `e`) -/
+theorem header_fields_any_prior_header (n : Nat) (netAt : Nat → Net) (net : Net) (sp : Paths.State)
+    (hR : R n net sp) (owner : Nat → Nat) (active : Nat → Nat → Bool) (hact : ∀ m t, active m t = true)
+    (sendingModule g : Nat) (hg : g < n) (issue sendTime : Nat)
+    (hissue : (netAt issue g).len ≤ 1) (hstable : ∀ t', sendTime ≤ t' → netAt t' = net)
+    (hk : kind net g ≠ .transit) (h : Hdr) :
+    let e := lastGate g (walk net n g true)
+    sendH netAt owner active sendingModule (n + 1) g issue sendTime h =
+      .handled (owner e) (sendTime + delaySum (walk net n g true)) ⟨sendingModule, owner e, some e⟩ true := by
+  intro e
+  rw [sendH_eq, (delayed_send_uses_wiring_at_send_time n netAt net sp hR owner active hact sendingModule g hg
+    issue sendTime hissue hstable hk).2]
+  rfl
+
 /-- sending on a transit gate is refused (`Connection::new` asserts) -/
 theorem send_on_transit_panics (net : Net) (owner : Nat → Nat) (active : Nat → Nat → Bool) (sender fuel g t : Nat)
     (hk : kind net g = .transit) : send net owner active sender fuel g t = .sendPanic := by
@@ -277,5 +306,10 @@ def demoAt (t : Nat) : Net := if t < 20 then demo else connectAll demo [(4, 0, s
 example : sendIssued demoAt (fun g => g / 2) (fun _ _ => true) 2 7 4 0 50 = .handled 1 65 (some 3) true 2 := by decide
 example : sendIssued demoAt (fun g => g / 2) (fun _ _ => true) 2 7 4 0 10 = .handled 2 10 (some 4) true 2 := by decide
 example : (demoAt 0 4).len ≤ 1 ∧ kind (demoAt 50) 4 ≠ .transit := by decide
+
+/-- a message that module 7 "received" before (stale receiver 7, stale sender 9, stale last gate 4) is
+    sent on by module 0 over the demo chain: the delivered header names module 0, module 1 and gate 3 -/
+example : sendH (fun _ => demo) (fun g => g / 2) (fun _ _ => true) 0 6 0 100 100 ⟨9, 7, some 4⟩ =
+    .handled 1 112 ⟨0, 1, some 3⟩ true := by decide
 
 end C08
